@@ -38,16 +38,17 @@ ObsVec(s) == LET o == s.obs IN
 Step(s2, op, a1, a2) == st' = s2 /\ hist' = Ext(<<op, a1, a2>> \o ObsVec(s2))
 
 Init == st = Raw /\ hist = <<>>
-DoInit     == st.life \in {"raw", "freed"} /\ Step(EavInit(st), 1, 0, 0)
-DoSetRfc   == CanUse(st) /\ \E v \in RfcVals : Step(SetRfc(st, v), 2, v, 0)
-DoSetTld   == CanUse(st) /\ \E b \in BOOLEAN : Step(SetTld(st, b), 3, IF b THEN 1 ELSE 0, 0)
-DoSetAllow == CanUse(st) /\ \E m \in Masks : Step(SetAllow(st, m), 4, MaskInt(m), 0)
-DoSetup    == CanUse(st) /\ Step(EavSetup(Backend, st), 5, 0, 0)
-DoIsEmail  == CanValidate(st) /\ \E i \in 1..NPool : \E f \in FaultCodes :
+DoInit     == Room /\ st.life \in {"raw", "freed"} /\ Step(EavInit(st), 1, 0, 0)
+DoSetRfc   == Room /\ CanUse(st) /\ \E v \in RfcVals : Step(SetRfc(st, v), 2, v, 0)
+DoSetTld   == Room /\ CanUse(st) /\ \E b \in BOOLEAN : Step(SetTld(st, b), 3, IF b THEN 1 ELSE 0, 0)
+DoSetAllow == Room /\ CanUse(st) /\ \E m \in Masks : Step(SetAllow(st, m), 4, MaskInt(m), 0)
+DoSetup    == Room /\ CanUse(st) /\ Step(EavSetup(Backend, st), 5, 0, 0)
+DoIsEmail  == Room /\ CanValidate(st) /\ \E i \in 1..NPool : \E f \in FaultCodes :
                  Step(IsEmailStep(st, i, f), 6, i, f)
-DoErrstr   == CanUse(st) /\ Step(EavErrstr(st), 7, 0, 0)
-DoFree     == CanUse(st) /\ Step(EavFree(Backend, st), 8, 0, 0)
-Next == Room /\ (DoInit \/ DoSetRfc \/ DoSetTld \/ DoSetAllow \/ DoSetup \/ DoIsEmail \/ DoErrstr \/ DoFree)
+DoErrstr   == Room /\ CanUse(st) /\ Step(EavErrstr(st), 7, 0, 0)
+DoFree     == Room /\ CanUse(st) /\ Step(EavFree(Backend, st), 8, 0, 0)
+\* one named disjunct per public call, so that TLC's -coverage reports each of them
+Next == DoInit \/ DoSetRfc \/ DoSetTld \/ DoSetAllow \/ DoSetup \/ DoIsEmail \/ DoErrstr \/ DoFree
 
 ----------------------------------------------------------------------------
 Safe == DispatchOk(st) /\ HeapOk(st) /\ CtxOk(st) /\ NoMisuse(st) /\ DiagOk(st)
